@@ -19,7 +19,18 @@ let hash_memo (x : byte list) : byte list =
   | None -> let h = hash256 x in Hashtbl.add hash_tbl k h; h
 
 let bytes_of_nib (s : string) : byte list =
-  if s = "-" then [] else List.init (String.length s) (fun i -> byte_of_int (hexval s.[i]))
+  (* one hex digit per nibble; a partial-key byte above 15 (a corrupted key) is written <xx> *)
+  if s = "-" then [] else begin
+    let out = ref [] and i = ref 0 in
+    while !i < String.length s do
+      if s.[!i] = '<' then begin
+        out := byte_of_int (16 * hexval s.[!i + 1] + hexval s.[!i + 2]) :: !out; i := !i + 4
+      end else begin
+        out := byte_of_int (hexval s.[!i]) :: !out; incr i
+      end
+    done;
+    List.rev !out
+  end
 
 type cursor = { tok : string array; mutable pos : int }
 let peek c = if c.pos < Array.length c.tok then c.tok.(c.pos) else "<eof>"
